@@ -145,9 +145,9 @@ func decodeBlock(c cid.Cid, data []byte) (ipld.Node, error) {
 func (m *memDag) GetMany(ctx context.Context, cs []cid.Cid) <-chan *ipld.NodeOption {
 	panic("GetMany not used by go-ipfs-log")
 }
-func (m *memDag) Remove(ctx context.Context, c cid.Cid) error          { panic("Remove not used") }
-func (m *memDag) RemoveMany(ctx context.Context, cs []cid.Cid) error   { panic("RemoveMany not used") }
-func (m *memDag) Pinning() ipld.NodeAdder                               { return m }
+func (m *memDag) Remove(ctx context.Context, c cid.Cid) error        { panic("Remove not used") }
+func (m *memDag) RemoveMany(ctx context.Context, cs []cid.Cid) error { panic("RemoveMany not used") }
+func (m *memDag) Pinning() ipld.NodeAdder                            { return m }
 
 // snapshot returns a copy of the store restricted to the first n written blocks.
 func (m *memDag) snapshot(n int) *memDag {
